@@ -16,6 +16,8 @@ DOC = {
     "TopologyRefsLive": "every mesh-topology reference names a registered instance",
     "UsageAgrees": "usage counters (nodes, service instances, service names, kv entries) equal the recount",
     "VipInjective/VipPoolDisjoint": "no two services share a virtual IP; an assigned IP is not in the free pool",
+    "AdvertisedVipCurrent": "every virtual IP advertised by a catalog instance (its own consul-virtual address, a terminating gateway's consul-virtual:<service> addresses) "
+                            "is the current assignment of that service in service-virtual-ips",
 }
 
 
